@@ -1,6 +1,6 @@
 """Per-property check definitions. Each function drives lib/vp.py steps and returns nothing;
 violations and coverage accumulate in ctx."""
-import json, os, time
+import json, os, re, time
 from vp import *
 
 TRUSTED = ["TLC 1.8 (tla2tools)", "the harness wire builder / executor (harness/src)",
@@ -48,6 +48,7 @@ def C09(ctx):
                 [("path_bytes", 0), ("path_escapes", 0), ("path_trunc", 0), ("elem_bytes", 0),
                  ("path_segs", 3 if q else 5)],
                 [("path", 4000 if q else 200000), ("elem", 2000 if q else 50000)])
+    suite_campaign(ctx, only=r"relative|slash|unreserved|utf8$")
     return dict(
         rule="E: TLC enumerates every byte x 5 spellings x 3 contexts x 2 modes, every %%xy over ASCII pairs, truncated "
              "escapes, and every path of <= %d segments over the 15-symbol segment alphabet in both modes; R: seeded "
@@ -96,6 +97,7 @@ def C10(ctx):
                 [("query", 4000 if q else 200000)])
     fresh_process_determinism(ctx, "query_lists", 2, 4 if q else 16, "fresh-processes")
     fresh_process_determinism(ctx, "query_many", 0, 4 if q else 16, "fresh-processes-many")
+    suite_campaign(ctx, only=r"query")
     return dict(
         rule="E: TLC enumerates every parameter list of <= %d components over 80 components (10 names incl. prefix-"
              "related ones x 7 values, with and without '='), all orders being distinct inputs, '&&' variants, every "
@@ -178,6 +180,62 @@ def logical_campaign(ctx, n):
     validate_req(ctx, tr, "R:logical", cases)
 
 
+def suite_campaign(ctx, only=None):
+    """the repository's copies of the AWS SigV4 test suite as wire requests with AWS-computed signatures: the
+    specification reads each (nothing is signed here), the library validates it with folding on and off and both
+    provider kinds, Trace_Req judges the trace; then, independently of the specification, every suite request that
+    reached the library must have been accepted when run as the suite intends (folding on, as the crate's own suite
+    runner does) and its canonical request / string to sign must be the bytes of AWS's .creq / .sts files."""
+    import awssuite
+    d = ctx.sub("suite")
+    wf = os.path.join(d, "wires.ndjson")
+    items = awssuite.write_wires(wf)
+    if not items:
+        ctx.notes.append("suite: no src/aws-sig-v4-test-suite directory in the tree; corpus skipped")
+        return
+    cases, k = tlc_gen(ctx, "Gen_Req", {"Family": "suite", "Bound": 0}, "suite", env={"WIRES": wf})
+    tr = hrun(ctx, cases, "suite")
+    validate_req(ctx, tr, "suite", cases)
+    # --- the external reference
+    groups, cur = [], None
+    for ln in open(tr):
+        e = json.loads(ln)
+        if e.get("ev") == "Begin":
+            cur = [e]
+            groups.append(cur)
+        elif e.get("ev") == "Inadm":
+            cur = None                  # the http crate would not represent this request: it never reached the library
+        elif cur is not None:
+            cur.append(e)
+    reached = accepted = compared = 0
+    for g in groups:
+        cid = tuple(g[0]["id"])
+        i, fold = cid[1] - 1, cid[2] == 2
+        name, _, creq, sts = items[i]
+        if not fold:
+            continue
+        end = next((e for e in g if e.get("ev") == "End"), None)
+        if end is None:
+            continue
+        reached += 1
+        if name in awssuite.INCOMPLETE or (only and not re.search(only, name)):
+            continue
+        if end.get("res") != "ok":
+            ctx.violation(g, "AWS test-suite request %s carries AWS's own signature but was refused: %s %s"
+                          % (name, end.get("kind"), end.get("msg", "")[:200]))
+            continue
+        accepted += 1
+        for ev, key, ref in (("StageAuth", "creq", creq), ("StageSts", "sts", sts)):
+            st = next((e for e in g if e.get("ev") == ev), None)
+            if st is not None and ref is not None and key in st:
+                compared += 1
+                if bytes(st[key]) != ref:
+                    ctx.violation(g, "AWS test-suite request %s: %s differs from AWS's .%s file" % (name, key, key))
+    log("  suite: %d requests reached the library with folding on, %d accepted as AWS signed them, %d reference files compared"
+        % (reached, accepted, compared))
+    ctx.campaigns[-1].update({"suite_reached": reached, "suite_accepted": accepted, "suite_reference_files_compared": compared})
+
+
 def validate_req(ctx, tr, label, cases):
     nv0 = len(ctx.violations)
     validate(ctx, "Trace_Req", tr, label, group="begin", chunk=1200, distinct_key=req_key)
@@ -250,6 +308,7 @@ def C02(ctx):
     pipeline_mc(ctx, q)
     req_campaign(ctx, [("spell", 0), ("base", 0 if q else 1), ("midnight", 0), ("window", 0 if q else 1), ("fold", 1),
                        ("s3hash", 0)])
+    suite_campaign(ctx)
     logical_campaign(ctx, 400 if q else 20000)
     return dict(
         rule="MC: Complete on SigV4.tla; the spelling law (an admissible respelling leaves canonical request, string-to-sign "
@@ -312,6 +371,7 @@ def C11(ctx):
     mc(ctx, "MC_Headers", law_cfg("HvalLaws", "hval", 4 if q else 6), label="HvalLaws")
     fn_campaign(ctx, [("hval", 4 if q else 6)], [("hval", 3000 if q else 100000)])
     req_campaign(ctx, [("mut_struct", 0), ("mut_hdr", 0 if q else 1), ("spell", 0)] + ([] if q else [("base", 1)]))
+    suite_campaign(ctx, only=r"header")
     logical_campaign(ctx, 400 if q else 20000)
     return dict(
         rule="MC: NormValue idempotent, no leading/trailing/double space, non-space bytes preserved in order. E (function): "
@@ -451,7 +511,7 @@ def C07(ctx):
 def C08(ctx):
     q = ctx.quick
     fn_campaign(ctx, [("foldsize", 0), ("errtable", 0), ("builders", 0), ("key_caps", 0), ("vreqs", 2 if q else 3),
-                      ("ts_affix", 0), ("path_trunc", 0)],
+                      ("ts_affix", 0), ("path_trunc", 0), ("helper_bytes", 0), ("helper_trim", 3 if q else 5)],
                 [("ts", 3000 if q else 100000), ("key", 2000 if q else 50000), ("path", 3000 if q else 100000),
                  ("query", 3000 if q else 100000), ("hval", 2000 if q else 50000)])
     req_campaign(ctx, [("charsets", 0), ("degenerate", 0), ("defects", 1 if q else 2)])
@@ -464,7 +524,9 @@ def C08(ctx):
              "label known to the encoding crate and unknown ones x 4 body classes; secrets x capacities; every "
              "SignatureError variant through error_code/http_status/Display/Debug/source/From; builders with required "
              "fields missing; requirement-container operation sequences; degenerate URIs and Authorization headers; "
-             "truncated escapes; timestamp affixes. R: seeded byte-level requests biased towards the tokens of "
+             "truncated escapes; timestamp affixes; the byte-level helpers (trim_ascii*, u8_to_upper_hex, "
+             "is_rfc3986_unreserved, latin1_to_string) on every byte and every string of <= 3 (5) bytes over the white-space "
+             "candidates. R: seeded byte-level requests biased towards the tokens of "
              "fuzz/dict.txt, random timestamps (incl. non-ASCII digits), secrets, paths, queries, header values.",
         assumptions=["operations documented as panicking on malformed escapes (unescape_uri_encoding) and "
                      "get_string_to_sign/get_signing_key without prevalidate are excepted, as the property states"])
